@@ -895,17 +895,18 @@ class StmtMixin:
         outs = []
         # exit: everything was visited
         hx = h.assume(Eq(done, seq_t)).note(f"L{s.lineno}:exit")
-        if isinstance(it, VPy) and it.what == "dictview":
+        if isinstance(it, VPy) and it.what in ("dictview", "dictsnap"):
             # completeness of the key sequence, instantiated for every ghost witness of the key sort:
-            # a key of the dictionary occurs in the iteration order
+            # a key of the dictionary (as it was when the view / the snapshot was taken) occurs in the iteration order
             d = it.obj
+            at = it.snap_state if it.what == "dictsnap" else hx
             ks = elem_sort(d.k)
             cands = list(st.ghost.values()) + [v for n_, v in self.entry_names.items()]
             for g in cands:
                 g = self.unwrap(g) if not isinstance(g, dict) else None
                 if g is not None and hasattr(g, "t") and g.t.sort == ks:
                     from .smt import seq_contains_elem, Implies
-                    hx.pc.append(Implies(self.dict_has(hx, d, g.t), seq_contains_elem(seq_t, g.t)))
+                    hx.pc.append(Implies(self.dict_has(at, d, g.t), seq_contains_elem(seq_t, g.t)))
         outs.append(Out("ok", hx))
         # one more iteration
         x = self.decls.fresh(f"it{ord_}", esort)
@@ -926,6 +927,15 @@ class StmtMixin:
             for o in self.ex_block(a.st, s.body):
                 if o.kind in ("ok", "cnt", "brk", "ret"):
                     o = Out(o.kind, self.check_steps(o.st, ls, a.st, is_ret=(o.kind == "ret"), is_brk=(o.kind == "brk")), o.val)
+                if o.kind in ("ok", "cnt") and isinstance(it, VPy) and it.what == "dictview":
+                    # iteration over a LIVE dictionary view: the next() that follows a body which changed the key set
+                    # raises RuntimeError (CPython compares the size; a changed key set is the over-approximation used
+                    # here - equal-size changes are reported as well)
+                    dom0, dom1 = self.dict_dom(a.st, it.obj), self.dict_dom(o.st, it.obj)
+                    if dom0.s != dom1.s:
+                        outs += self.raise_(o.st.assume(Not(Eq(dom0, dom1))), "RuntimeError",
+                                            f"dictionary changed during iteration (line {s.lineno})")
+                        o = Out(o.kind, o.st.assume(Eq(dom0, dom1)), o.val)
                 if o.kind in ("ok", "cnt"):
                     nd = seq_concat(done, seq_unit(x))
                     g2 = {"done": VSeq(nd, ek), f"done{ord_}": VSeq(nd, ek), "seq": VSeq(seq_t, ek),
@@ -951,21 +961,24 @@ class StmtMixin:
                 self.add_ref_facts(s, v)
                 return v, s
             return mk, t, ek, None
-        if isinstance(it, VPy) and it.what == "dictview":
+        if isinstance(it, VPy) and it.what in ("dictview", "dictsnap"):
             d, mode = it.obj, it.extra
             ks = self.decls.fresh("dictkeys", f"(Seq {elem_sort(d.k)})")
+            snap = it.snap_state if it.what == "dictsnap" else None
 
             def mk(s, x):
                 kv = from_comps(d.k, [x])
                 if mode == "keys":
                     return kv, s
-                val = self.dict_get(s, d, x)
+                val = self.dict_get(snap if snap is not None else s, d, x)
+                if snap is not None:
+                    self.add_ref_facts(s, val)
                 if mode == "values":
                     return val, s
                 return VTuple([kv, val]), s
 
             def fact(s, x):
-                return self.dict_has(s, d, x)
+                return self.dict_has(snap if snap is not None else s, d, x)
             st.ghost["dictkeys"] = VSeq(ks, d.k)
             return mk, ks, d.k, fact
         raise Unsupported(f"iteration over {it!r}")
